@@ -160,16 +160,15 @@ class ExprBinModel(ExprModel):
         return (self.lhs.is_signed() and self.rhs.is_signed())
     
     def width(self):
-        if not self._width_valid:
-            if self.op in (BinExprType.Eq, BinExprType.Ge, BinExprType.Le,
-                           BinExprType.Gt, BinExprType.Lt, BinExprType.Ne):
-                self._width = 1
-            else:
-                lhs_w = self.lhs.width()
-                rhs_w = self.rhs.width()
-                self._width = lhs_w if lhs_w > rhs_w else rhs_w
-            self._width_valid = True
-        return self._width
+        # Not cached: the width of an operand can change between calls
+        # (the sum of a list depends on the number of elements)
+        if self.op in (BinExprType.Eq, BinExprType.Ge, BinExprType.Le,
+                       BinExprType.Gt, BinExprType.Lt, BinExprType.Ne):
+            return 1
+        else:
+            lhs_w = self.lhs.width()
+            rhs_w = self.rhs.width()
+            return lhs_w if lhs_w > rhs_w else rhs_w
     
     def __str__(self):
         return "ExprBin: " + str(self.lhs) + " " + str(self.op) + " " + str(self.rhs)
